@@ -25,6 +25,7 @@ META = dict(
 META["text"] += ' (R6 = C02.R2) the plurality and super-majority assorters take values in [0, declared upper_bound], and the three places stating the super-majority bound agree.'
 META["text"] += ' (R7, N) Assorter and Assertion constructors store contest, upper_bound, assorter, margin and test unconditionally from the parameters of the same name.'
 META["text"] += ' (R8 = C07.R3) the threshold moves only while the contest is in progress.'
+META["text"] += ' (R9 = C03.R3) every ONEAudit pool mean is the assorter total over the count of the same cards.'
 
 SPEC_U = '''
 def spec(at, v, ua):
@@ -93,6 +94,10 @@ def run(chk):
         c07.r2(c, f_)  # (locates the taken branch for r3)
         c07.r3(c, f_)
     chk.borrow(_r23, {"C07.R3": "C06.R8"})
+    # R9: ONEAudit data stay in range only if every pool mean is a mean: numerator and denominator over the same cards (C03.R3)
+    from . import c03
+    chk.borrow(c03.run, {"C03.R3": "C06.R9"})
+    chk.obs = [o for o in chk.obs if not (o.rule == "C06.R9" and o.key not in ("tot-and-n-over-same-cards", "pool-mean=tot/n"))]
 
 
 def r1(chk):
